@@ -185,6 +185,10 @@ class RuleGen:
             self.allow_def = saved
             if good is None:
                 return None
+            if rng.random() < f.onots:
+                good = self.operand_not(field)      # a negation as the child of an operand-level operator
+                if kind == "$or":
+                    return {"$or": self.shuffled([good, {"$and": [self.decoy_operand()]}])}
             if kind == "$or":
                 alts = [good] + [self.decoy_operand() for _ in range(rng.randint(1, 2))]
                 if rng.random() < 0.25:
@@ -192,19 +196,23 @@ class RuleGen:
                 return {"$or": self.shuffled(alts)}
             return {"$and": [good]}
         if depth < 1 and rng.random() < f.onots:
-            # argument: a decoy (the $not succeeds) or, sometimes, a name of this very operand (it must reject);
-            # single literal or a group of literals
-            own = self.op_name(field) if rng.random() < 0.3 else None
-            d = own if own is not None else self.decoy_operand()
-            r2 = rng.random()
-            if r2 < 0.35:
-                d = {"$or": self.shuffled([d, self.decoy_operand()] + ([self.decoy_operand()] if rng.random() < 0.4 else []))}
-            elif r2 < 0.45:
-                d = {"$and": [d]}
-            elif r2 < 0.57:
-                d = {"$not": [d]}
-            return {"$not": [d]}
+            return self.operand_not(field)
         return self.op_name(field)
+
+    def operand_not(self, field: str):
+        """An operand-level $not for this operand. Argument: a decoy (the $not succeeds) or, sometimes, a name of this very
+        operand (it must reject); single literal or a group of literals."""
+        rng = self.rng
+        own = self.op_name(field) if rng.random() < 0.3 else None
+        d = own if own is not None else self.decoy_operand()
+        r2 = rng.random()
+        if r2 < 0.35:
+            d = {"$or": self.shuffled([d, self.decoy_operand()] + ([self.decoy_operand()] if rng.random() < 0.4 else []))}
+        elif r2 < 0.45:
+            d = {"$and": [d]}
+        elif r2 < 0.57:
+            d = {"$not": [d]}
+        return {"$not": [d]}
 
     def regfam_node(self, field: str):
         """A register-family capture for a register operand (definition or later use)."""
@@ -265,6 +273,12 @@ class RuleGen:
         if allow_groups and len(ops) >= 2 and rng.random() < f.ogroups * 0.5:
             a, b = self.op_name(ops[0]), self.op_name(ops[1])
             if a is not None and b is not None:
+                if rng.random() < f.onots:
+                    # one child is a negation: it takes the operand the other child leaves
+                    if rng.random() < 0.5:
+                        a = self.operand_not(ops[0])
+                    else:
+                        b = self.operand_not(ops[1])
                 return [{"$and_any_order": self.shuffled([a, b])}] + (
                     [x for x in [self.op_name(ops[2])] if x is not None] if len(ops) > 2 and rng.random() < 0.5 else [])
         out = []
@@ -419,6 +433,10 @@ class RuleGen:
                 x = {"$or": self.shuffled([x, self.decoy_item()])}
             elif r3 < 0.57:
                 x = {"$not": [x]}          # a negation of a negation: matches one instruction at which x DOES match
+            elif r3 < 0.67 and left >= 2:
+                two = self.seq_for(idx, 2, f.max_depth)
+                if two and two[1] == 2:
+                    x = {"$not": [{"$and": two[0]}]}    # not-not of a two-instruction group that matches here: still ONE instruction
             node = {"$not": [x]}
             if rng.random() < f.group_times:
                 node["times"] = self.times_value(1)
